@@ -44,7 +44,7 @@ fn main() {
                 Some("thorough") => "thorough",
                 _ => "quick",
             };
-            let limit = std::env::var("MC_HANG_SECS").ok().and_then(|s| s.parse().ok()).unwrap_or(if tier == "quick" { 120 } else { 900 });
+            let limit = std::env::var("MC_HANG_SECS").ok().and_then(|s| s.parse().ok()).unwrap_or(if tier == "quick" { 300 } else { 900 });
             explore::start_watchdog(limit, prop.to_string(), tier.to_string());
             match prop {
                 "C01" | "C02" | "C03" | "C04" | "C05" => props_paths::run(prop, tier),
